@@ -212,6 +212,17 @@ fn via_machine(c: &SampleCase, obs: &mut Obs) -> Result<(), Failure> {
                 StateSpec { action: Some(*a), counter_a: *ca, counter_b: *cb, trans: vec![] },
             ],
         })
+        // a state without an action whose counter update carries the candidate
+        .chain([(cs(c.dist), None), (None, cs(c.dist)), (cs(one), cs(c.dist))].into_iter().map(|(ca, cb)| MachineSpec {
+            allowed_padding_packets: u64::MAX,
+            max_padding_frac: Fx(0.0),
+            allowed_blocked_microsec: u64::MAX,
+            max_blocking_frac: Fx(0.0),
+            states: vec![
+                StateSpec { action: None, counter_a: None, counter_b: None, trans: vec![(0, vec![(1, Fs(1.0))])] },
+                StateSpec { action: None, counter_a: ca, counter_b: cb, trans: vec![] },
+            ],
+        }))
         .collect();
     // each machine is judged by Machine::new on its own
     let machines: Vec<MachineSpec> = all.into_iter().filter(|m| m.build().is_ok()).collect();
